@@ -1,4 +1,5 @@
 #pragma once
+#include "../common/verif_hooks.h"
 
 // Required to prevent circular dependencies.
 class DirectSolver;
@@ -93,6 +94,7 @@ public:
     void extrapolatedSmoothing(Vector<double>& x, const Vector<double>& rhs, Vector<double>& temp) const;
 
 private:
+    GMGPOLAR_VERIF_FRIEND
     const int level_depth_;
     std::unique_ptr<const PolarGrid> grid_;
     std::unique_ptr<const LevelCache> level_cache_;
@@ -165,6 +167,7 @@ public:
     }
 
 private:
+    GMGPOLAR_VERIF_FRIEND
     const DomainGeometry& domain_geometry_;
     const DensityProfileCoefficients& density_profile_coefficients_;
 
